@@ -342,9 +342,14 @@ func b01(b bool) int {
 }
 
 // emit: the log in model shape (strings -> "s" keys, params -> ids)
-func (d *c20Devgas) emit(r *reg) map[string]interface{} {
+// (generation > 0: the chain was started from an export and no registry message was sent on it — empty log, and the
+// checker starts the replay from the registry of that generation)
+func (d *c20Devgas) emit(r *reg, gen int) map[string]interface{} {
 	hist := J{}
 	for _, e := range d.hist {
+		if gen > 0 {
+			break
+		}
 		switch e.k {
 		case "wasm":
 			hist = append(hist, J{"wasm", r.S(e.c), b01(e.hasAdmin), r.S(e.admin), r.S(e.creator)})
@@ -354,7 +359,7 @@ func (d *c20Devgas) emit(r *reg) map[string]interface{} {
 			hist = append(hist, J{e.k, r.S(e.c), r.S(e.d), r.S(e.w), b01(e.ok)})
 		}
 	}
-	return map[string]interface{}{"gov": r.S(c20GovAddr().String()), "empty": r.S(""), "params0": r.DGP(d.params0), "hist": hist}
+	return map[string]interface{}{"gov": r.S(c20GovAddr().String()), "empty": r.S(""), "params0": r.DGP(d.params0), "hist": hist, "gen": gen}
 }
 
 // classes of registry histories, for the input histogram
